@@ -13,7 +13,7 @@ import sys
 import time
 
 sid = sys.argv[1]
-d = "/verif/seeded/" + sid
+d = os.environ.get("SEED_BASE", "/verif/seeded") + "/" + sid
 meta = json.load(open(d + "/meta.json"))
 props = sys.argv[2:] or [meta["property"]]
 SV, SR = "/tmp/sr-verif", "/tmp/sr-repo"
